@@ -2,6 +2,7 @@ import AffVerif.Proofs.DistillLemmas
 import AffVerif.Props.C03
 import AffVerif.Props.C04
 import AffVerif.Props.C17
+import AffVerif.Proofs.CachePrune
 /-!
 # C01 — distillation is faithful: the tree computes exactly the network
 
@@ -10,16 +11,15 @@ import AffVerif.Props.C17
 hard tanh, hard sigmoid; `compose::<true>` for the heads); `netEval` is the specification — the layer list applied
 directly to the input, no trees involved.
 
-Proved (`C01_distill_faithful_partial`): for every dimension-consistent sequence of linear layers and per-neuron
+Proved (`C01_distill_faithful`): for every dimension-consistent sequence of linear layers and per-neuron
 activations of the four kinds, every precondition tree (in particular `from_poly` of a polytope, with or without
 else-branch: the distilled tree is undefined exactly where the precondition is) and every LP backend that is right
 when it answers "infeasible" — no completeness assumption: faithfulness survives any amount of missed pruning —
 the distilled tree returns the network's output at *every* input, breakpoints included.
 The theorem is over any ordered field; with the hard-sigmoid slope as a parameter it covers both the textbook
 `1/6` and the `f64` constant of the code.
-Not yet proved: sequences ending in an `argmax` / class-characterisation head (they need the tournament theorem for
-`schema::argmax`); those are covered by the correspondence check, which compares the distilled trees of generated
-networks with heads against the specification at inputs including ties.
+Sequences containing an `argmax` / class-characterisation head are covered as well (`compose::<true>` with the
+tournament / chain tree of C17, for every LP backend that is right about infeasibility).
 The rounding clause of C01 (non-representable intermediate values) is outside the reach of a theorem over fields;
 see DESIGN.md.
 -/
@@ -101,14 +101,99 @@ def LayersOK : Nat → List (Layer α) → Prop
   | d, .leakyRelu i _ :: ls => i < d ∧ LayersOK d ls
   | d, .hardTanh i :: ls => i < d ∧ LayersOK d ls
   | d, .hardSigmoid i :: ls => i < d ∧ LayersOK d ls
-  | _, .argmax :: _ => False
-  | _, .classChar _ :: _ => False
+  | d, .argmax :: ls => 2 ≤ d ∧ LayersOK 1 ls
+  | d, .classChar c :: ls => c < d ∧ LayersOK 1 ls
 
 /-- output dimension after the layers -/
 def layersOut : Nat → List (Layer α) → Nat
   | d, [] => d
   | _, .linear a :: ls => layersOut a.outdim ls
+  | _, .argmax :: ls => layersOut 1 ls
+  | _, .classChar _ :: ls => layersOut 1 ls
   | d, _ :: ls => layersOut d ls
+
+/-! ### the heads: shape of the schema trees, one pruned composition -/
+
+theorem wf_subtraction (n l r : Nat) : (Aff.subtraction n l r : Aff α).WF := by
+  unfold Aff.subtraction Aff.WF
+  simp
+
+theorem wf_constant (n : Nat) (v : α) : (Aff.constant n v : Aff α).WF := by
+  unfold Aff.constant Aff.WF
+  simp [zeros]
+
+theorem shaped_constLeaf (i n : Nat) (v : α) : PT.Shaped 2 n 1 (Sch.leaf i (Aff.constant n v) : PT α) := by
+  have := shaped_leaf i n (Aff.constant n v : Aff α) (wf_constant n v) rfl
+  simpa [Aff.constant, Aff.outdim] using this
+
+theorem shaped_chain01 (n : Nat) (v0 v1 : α) (idx : Nat) (row : Aff α) (rows : List (Aff α)) (c : Nat)
+    (h : ∀ r ∈ row :: rows, r.WF ∧ r.indim = n ∧ r.outdim = 1) :
+    PT.Shaped 2 n 1 (Sch.chainNode (some (Aff.constant n v0)) (Aff.constant n v1) idx row rows c : PT α) := by
+  induction rows generalizing idx row c with
+  | nil =>
+    obtain ⟨h1, h2, h3⟩ := h row (by simp)
+    simp only [Sch.chainNode]
+    exact shaped_dec idx n 1 row _ _ h1 h2 h3 (shaped_constLeaf _ n v0) (shaped_constLeaf _ n v1)
+  | cons r rs ih =>
+    obtain ⟨h1, h2, h3⟩ := h row (by simp)
+    simp only [Sch.chainNode]
+    exact shaped_dec idx n 1 row _ _ h1 h2 h3 (shaped_constLeaf _ n v0)
+      (ih (c+1) r (c+2) (fun q hq => h q (List.mem_cons_of_mem _ hq)))
+
+theorem shaped_classChar (n c : Nat) : PT.Shaped 2 n 1 (Sch.classChar n c : PT α) := by
+  unfold Sch.classChar
+  cases hrows : ((List.range n).filter (· ≠ c)).map (fun i => (Aff.subtraction n i c : Aff α)) with
+  | nil => exact shaped_constLeaf 0 n 1
+  | cons r rs =>
+    simp only
+    apply shaped_chain01
+    intro q hq
+    rw [← hrows] at hq
+    obtain ⟨i, _, rfl⟩ := List.mem_map.mp hq
+    exact ⟨wf_subtraction n i c, rfl, rfl⟩
+
+theorem shaped_argmaxNode (n : Nat) (ofNat : Nat → α) (fuel idx mf mt c : Nat) :
+    PT.Shaped 2 n 1 (Sch.argmaxNode n ofNat fuel idx (Aff.subtraction n mf mt) mf mt c).1 := by
+  induction fuel generalizing idx mf mt c with
+  | zero =>
+    simp only [Sch.argmaxNode]
+    exact shaped_dec idx n 1 _ _ _ (wf_subtraction n mf mt) rfl rfl (shaped_constLeaf _ n _) (shaped_constLeaf _ n _)
+  | succ fuel ih =>
+    simp only [Sch.argmaxNode]
+    split
+    · exact shaped_dec idx n 1 _ _ _ (wf_subtraction n mf mt) rfl rfl (ih _ _ _ _) (ih _ _ _ _)
+    · exact shaped_dec idx n 1 _ _ _ (wf_subtraction n mf mt) rfl rfl (shaped_constLeaf _ n _) (shaped_constLeaf _ n _)
+
+theorem shaped_argmax (n : Nat) (ofNat : Nat → α) : PT.Shaped 2 n 1 (Sch.argmax n ofNat : PT α) :=
+  shaped_argmaxNode n ofNat n 0 1 0 1
+
+/-- one head: `compose::<true>` with the head's tree -/
+theorem distill_head {σ : Type} (tol : α) (O : Oracles σ α) (hlp : InfeasibleSound O.lp)
+    (n dim : Nat) (t g : PT α) (φ : List α → List α) (s : σ) (c : Nat)
+    (hI : DistInv n dim t) (hg : PT.Shaped 2 dim 1 g)
+    (hφ : ∀ y : List α, y.length = dim → PT.eval g y = some (φ y)) :
+    DistInv n 1 (PT.composeP Schema.compose (isEdgeFeasible tol O.lp) n [] t g s c).1 ∧
+    ∀ x : List α, x.length = n →
+      PT.eval (PT.composeP Schema.compose (isEdgeFeasible tol O.lp) n [] t g s c).1 x = (PT.eval t x).map φ := by
+  refine ⟨⟨C04_compose_prune _ t g s c 2 n dim 1 [] hI.1 hg, PT.infSound_composeP _ _ n [] t g s c hI.2⟩, fun x hx => ?_⟩
+  rw [C03_compose_prune tol O.lp hlp t g s c x n dim 1 hx hI.1 hg hI.2]
+  cases he : PT.eval t x with
+  | none => simp
+  | some y =>
+    simp only [Option.bind_some, Option.map_some]
+    exact hφ y (eval_length t 2 n dim x y hI.1 he)
+
+theorem distillLayer_argmax {σ : Type} (tol : α) (O : Oracles σ α) (k : NetConsts α) (n : Nat) (t : PT α)
+    (dim : Nat) (s : σ) :
+    distillLayer tol O k n t dim .argmax s =
+      ((PT.composeP Schema.compose (isEdgeFeasible tol O.lp) n [] t (Sch.argmax dim k.ofNat) s (PT.freshBase t)).1, 1,
+       (PT.composeP Schema.compose (isEdgeFeasible tol O.lp) n [] t (Sch.argmax dim k.ofNat) s (PT.freshBase t)).2.1) := rfl
+
+theorem distillLayer_classChar {σ : Type} (tol : α) (O : Oracles σ α) (k : NetConsts α) (n : Nat) (t : PT α)
+    (dim cl : Nat) (s : σ) :
+    distillLayer tol O k n t dim (.classChar cl) s =
+      ((PT.composeP Schema.compose (isEdgeFeasible tol O.lp) n [] t (Sch.classChar dim cl) s (PT.freshBase t)).1, 1,
+       (PT.composeP Schema.compose (isEdgeFeasible tol O.lp) n [] t (Sch.classChar dim cl) s (PT.freshBase t)).2.1) := rfl
 
 theorem distill_fold {σ : Type} (tol : α) (O : Oracles σ α) (hlp : InfeasibleSound O.lp) (k : NetConsts α)
     (n : Nat) (layers : List (Layer α)) (t : PT α) (dim : Nat) (s : σ)
@@ -156,13 +241,25 @@ theorem distill_fold {σ : Type} (tol : α) (O : Oracles σ α) (hlp : Infeasibl
       simp only [distillLayer_hardSigmoid]
       rw [ih _ _ _ h1 hl.2 x hx, h2 x hx]
       cases PT.eval t x <;> simp [Layer.eval]
-    | argmax => simp [LayersOK] at hl
-    | classChar c => simp [LayersOK] at hl
+    | argmax =>
+      simp only [LayersOK] at hl
+      obtain ⟨h1, h2⟩ := distill_head tol O hlp n dim t (Sch.argmax dim k.ofNat) _ s (PT.freshBase t) hI
+        (shaped_argmax dim k.ofNat) (fun y hy => C17_argmax dim k.ofNat y hl.1 hy)
+      simp only [distillLayer_argmax]
+      rw [ih _ _ _ h1 hl.2 x hx, h2 x hx]
+      cases PT.eval t x <;> simp [Layer.eval]
+    | classChar cl =>
+      simp only [LayersOK] at hl
+      obtain ⟨h1, h2⟩ := distill_head tol O hlp n dim t (Sch.classChar dim cl) _ s (PT.freshBase t) hI
+        (shaped_classChar dim cl) (fun y hy => C17_class_char dim cl y hl.1 hy)
+      simp only [distillLayer_classChar]
+      rw [ih _ _ _ h1 hl.2 x hx, h2 x hx]
+      cases PT.eval t x <;> simp [Layer.eval]
 
-/-- **C01 (layers without heads)**: with a precondition tree `pre` (output dimension `d0`) the distilled tree is
+/-- **C01**: with a precondition tree `pre` (output dimension `d0`) the distilled tree is
     defined exactly where `pre` is and returns the network applied to `pre`'s output; in particular for
     `pre = from_poly(P, identity, None)`: the network's output inside `P`, undefined outside -/
-theorem C01_distill_faithful_partial {σ : Type} (tol : α) (O : Oracles σ α) (hlp : InfeasibleSound O.lp)
+theorem C01_distill_faithful {σ : Type} (tol : α) (O : Oracles σ α) (hlp : InfeasibleSound O.lp)
     (k : NetConsts α) (n d0 : Nat) (pre : PT α) (layers : List (Layer α)) (s : σ)
     (hpre : PT.Shaped 2 n d0 pre) (hc : PT.InfSound [] pre) (hd : PT.firstOutdim pre = some d0)
     (hl : LayersOK d0 layers) (x : List α) (hx : x.length = n) :
@@ -172,7 +269,7 @@ theorem C01_distill_faithful_partial {σ : Type} (tol : α) (O : Oracles σ α) 
   exact distill_fold tol O hlp k n layers pre d0 s ⟨hpre, hc⟩ hl x hx
 
 /-- without precondition: the distilled tree is total and equals the network everywhere -/
-theorem C01_distill_faithful_total_partial {σ : Type} (tol : α) (O : Oracles σ α) (hlp : InfeasibleSound O.lp)
+theorem C01_distill_faithful_total {σ : Type} (tol : α) (O : Oracles σ α) (hlp : InfeasibleSound O.lp)
     (k : NetConsts α) (n : Nat) (layers : List (Layer α)) (s : σ)
     (hl : LayersOK n layers) (x : List α) (hx : x.length = n) :
     PT.eval (afftreeFromLayers tol O k n none layers s).1 x = some (netEval k layers x) := by
